@@ -1221,6 +1221,17 @@ func TestStatusTokenGrid(t *testing.T) {
 				return
 			}
 		}
+		// numerals congruent to 101 modulo the word size, digits of 2^63 / 2^64
+		// (+-1) followed by 101, long digit strings ending in 101: all are other numbers
+		for _, tok := range respgen.WrapNumerals("101") {
+			if respgen.ClassifyStatus(tok) != "fail:status:value" {
+				hx.Failf(t, tok, "harness: %q classified %q", tok, respgen.ClassifyStatus(tok))
+				return
+			}
+			if !try(tok) {
+				return
+			}
+		}
 	}
 	hx.EvalN(n)
 	hx.Part("status tokens: all strings over 0x30-0x3F up to the tier's length, byte insertions around 101, 2^k multiples + 101", int64(n), true)
@@ -1285,7 +1296,16 @@ func TestVersionGrid(t *testing.T) {
 		return
 	}
 	if hx.Mine(0) {
-		for _, v := range respgen.VersionTokens {
+		versions := append([]string(nil), respgen.VersionTokens...)
+		for _, w := range respgen.WrapNumerals("1") {
+			if lbl := respgen.ClassifyVersion("HTTP/" + w + ".1"); lbl != "fail:version:major" {
+				hx.Failf(t, w, "harness: major %q classified %q", w, lbl)
+				return
+			}
+			// as major: another number than 1, must fail; as minor: >= 1 but huge, open
+			versions = append(versions, "HTTP/"+w+".1", "HTTP/"+w+".0", "HTTP/1."+w, "HTTP/"+w+"."+w)
+		}
+		for _, v := range versions {
 			n++
 			r := respgen.Valid()
 			r.Version = v
